@@ -45,9 +45,16 @@ const (
 	VerifC46SigningAttemptAnnouncementActiveBlocks          = signingAttemptAnnouncementActiveBlocks
 	VerifC46SigningAttemptMaximumProtocolBlocks             = signingAttemptMaximumProtocolBlocks
 	VerifC46SigningAttemptCoolDownBlocks                    = signingAttemptCoolDownBlocks
+	VerifC46CoordinationDurationBlocks                      = coordinationDurationBlocks
 )
 
 func VerifC46SigningAttemptMaximumBlocks() uint { return signingAttemptMaximumBlocks() }
+
+// VerifC46WindowEndBlock is the end block of the coordination window starting
+// at the given coordination block (where wallet actions start).
+func VerifC46WindowEndBlock(coordinationBlock uint64) uint64 {
+	return newCoordinationWindow(coordinationBlock).endBlock()
+}
 
 // VerifC46ActionParams is what the real action constructors wire into the
 // action structs.
